@@ -54,7 +54,46 @@ def build(d):
         s = dt.StructOf(optional=list(d['optional']), **{n: build(x) for n, x in d['members']})
         s.client = bool(d.get('client', False))
         return s
+    # TupleOf SUBCLASSES and the plain tuples they turn into (compat cases only; describe() erases them to 'tuple')
+    if t == 'status':
+        return dt.StatusType(*d['names'], **{n: v for n, v in d.get('extra', [])})
+    if t == 'limits':
+        return dt.LimitsType(build(d['member']))
+    if t == 'via':
+        o = build(d['of'])
+        if d['how'] == 'copy':
+            return o.copy()
+        import json
+        return dt.get_datatype(json.loads(json.dumps(o.export_datatype())), d.get('pname', ''))
     raise ValueError(d)
+
+
+STATUS_CODES = {'DISABLED': 0, 'IDLE': 100, 'STANDBY': 130, 'PREPARED': 150, 'WARN': 200, 'WARN_STANDBY': 230,
+                'WARN_PREPARED': 250, 'UNSTABLE': 270, 'BUSY': 300, 'DISABLING': 310, 'INITIALIZING': 320, 'PREPARING': 340,
+                'STARTING': 360, 'RAMPING': 370, 'STABILIZING': 380, 'FINALIZING': 390, 'ERROR': 400, 'ERROR_STANDBY': 430,
+                'ERROR_PREPARED': 450, 'UNKNOWN': 401}      # SECoP status codes (specification side)
+
+
+def plain(d):
+    """generator descriptor -> descriptor of the plain tree a subclass tuple is a description of (specification side:
+    a status is the tuple (enum of status codes, string), limits are the tuple (member, member))"""
+    t = d['t']
+    if t == 'status':
+        ms = sorted([[n, STATUS_CODES[n]] for n in d['names']] + [list(m) for m in d.get('extra', [])], key=lambda m: m[1])
+        return {'t': 'tuple', 'elems': [{'t': 'enum', 'name': 'Status', 'members': ms},
+                                        {'t': 'string', 'min': 0, 'max': UNL, 'utf8': False}]}
+    if t == 'limits':
+        m = plain(d['member'])
+        return {'t': 'tuple', 'elems': [m, m]}
+    if t == 'via':
+        return plain(d['of'])
+    if t == 'array':
+        return dict(d, elem=plain(d['elem']))
+    if t == 'tuple':
+        return dict(d, elems=[plain(x) for x in d['elems']])
+    if t == 'struct':
+        return dict(d, members=[[n, plain(x)] for n, x in d['members']])
+    return d
 
 
 def describe(obj):
@@ -121,6 +160,8 @@ def gal_xt(e):
 def to_g(d):
     """(exact or generator) descriptor -> dtgen descriptor (validation-relevant part)"""
     t = d['t']
+    if t in ('status', 'limits', 'via'):
+        return to_g(plain(d))
     if t == 'text':
         return {'t': 'string', 'min': 0, 'max': UNL if d.get('max') is None else d['max'], 'utf8': False}
     if t == 'array':
@@ -383,3 +424,40 @@ def widen(rng, d):
         ms = ms[1:]
         opt = [n for n in opt if n in dict(ms)]
     return {'t': 'struct', 'members': ms, 'optional': opt, 'client': False}
+
+
+def rand_subclass_pair(rng):
+    """(a, b) for compatible(): a TupleOf SUBCLASS (StatusType / LimitsType) against the plain TupleOf it is exported
+    as (JSON round trip, copy(), the same tree built directly, wider members), the reverse, and subclass pairs.
+    Not drawn: plain TupleOf(m, m) -> LimitsType(m) (see notes/C03.md, 'subclass tuples')."""
+    if rng.random() < 0.5:
+        names = rng.sample(sorted(STATUS_CODES), rng.randint(1, 4))
+        extra = [[n, v] for n, v in zip(rng.sample(['custom', 'x1', 'Odd'], rng.randint(0, 2)), rng.sample([7, 105, 999, -3], 2))]
+        s = {'t': 'status', 'names': names, 'extra': extra}
+    else:
+        k = rng.choice(['float', 'float', 'int', 'scaled'])
+        while True:
+            m = rand_xt(rng, 0, special=False)
+            if m['t'] == k:
+                break
+        s = {'t': 'limits', 'member': m}
+    r = rng.random()
+    if r < 0.2:
+        return s, {'t': 'via', 'how': 'json', 'of': s, 'pname': rng.choice(['', 'p'])}
+    if r < 0.35:
+        return s, {'t': 'via', 'how': 'copy', 'of': s}
+    if r < 0.45:
+        return s, plain(s)
+    if r < 0.65:
+        return s, widen(rng, plain(s))
+    if r < 0.72:
+        return s, s
+    if r < 0.8 and s['t'] == 'limits':
+        return s, {'t': 'limits', 'member': widen(rng, s['member'])}
+    if s['t'] == 'limits':                                    # narrower on the right: must not pass unsoundly
+        return {'t': 'limits', 'member': widen(rng, s['member'])}, {'t': 'via', 'how': 'json', 'of': s}
+    # reverse: the plain tuple on the left, the status subclass on the right
+    a = rng.choice([{'t': 'via', 'how': 'json', 'of': s}, {'t': 'via', 'how': 'copy', 'of': s}, plain(s)])
+    if rng.random() < 0.3 and len(s['names']) > 1:
+        return a, dict(s, names=s['names'][1:])                # right side lacks a code
+    return a, s
